@@ -56,7 +56,7 @@ for d in sorted(glob.glob(os.path.join(ROOT, "seeded", "*"))):
     sig = next((x["signatures"][0] for x in own if x["detected"] and x["signatures"]), "")
     extra = ", ".join(f"{x['check']}: {'yes' if x['detected'] else 'no'}" for x in other)
     summ = re.sub(r"\s+", " ", am.get("summary", ""))[:150]
-    rows.append(f"| {sid} | {summ} | {best} | `{sig}` | {extra} |")
+    rows.append(f"| {sid} | {summ} | {best} | `{sig[:90]}` | {extra} |")
 
 import sys
 table = ["| seeded change | what it breaks (agent's summary, truncated) | caught by the property's quick check | first signature | other checks |",
